@@ -308,10 +308,17 @@ class C19(Check):
 
     def partitions(self, tier):
         s_grammars(tier)
-        return [(fam, p) for fam in FAMILIES for p in range(NPARTS)]
+        return [(fam, p) for fam in FAMILIES for p in range(NPARTS)] + [("two-directories", 0)]
 
     def run_partition(self, part, tier, st):
         fam, p = part
+        if fam == "two-directories":
+            bad, n = T.run_two_directories()
+            st.ev(n)
+            st.nontriv(("two-directories", n))
+            for sig, msg in bad:
+                st.violation(sig, msg, {"two_directories": True})
+            return
         for w in FAMILIES[fam](tier, p):
             self.one(T.norm_world(w), fam, st)
 
@@ -350,6 +357,8 @@ class C19(Check):
             st.violation(sig, msg[:600], {"world": small, "family": fam})
 
     def replay(self, case):
+        if case.get("two_directories"):
+            return repr(T.run_two_directories())
         w = T.norm_world(case["world"])
         v, exp, real = T.judge(w)
         out = [T.describe(w, exp), "real:      %r" % (real,)]
